@@ -183,7 +183,7 @@ impl Worker {
     if !self.snapshots.contains_key(&label) {
       let dir = self.scratch.sub(&format!("snap-{label}"));
       let index = idx::open(&self.world, &dir, cfg)?;
-      index.update()?;
+      util::watched(|| index.update())?;
       drop(index);
       self.snapshots.insert(label.clone(), dir);
     }
@@ -465,6 +465,7 @@ fn run_dense(property: &'static str, cfgs: &[IndexCfg], report: &mut Report) -> 
 
 /// `batch`: all enumerated blocks are indexed by ONE update() call, audited once at the end.
 pub fn exec_mode(w: &mut Worker, cfg: &IndexCfg, l: usize, choices: &Choices, batch: bool) -> Exec {
+  util::set_context(json!({"suite": "sats", "cfg": cfg.label(), "choices": choices, "one_update": batch}).to_string());
   let mut e = Exec::default();
   w.restore_prefix();
   let prefix = w.prefix_blocks.clone();
@@ -505,7 +506,7 @@ pub fn exec_mode(w: &mut Worker, cfg: &IndexCfg, l: usize, choices: &Choices, ba
     if batch && bi + 1 < nblocks {
       continue;
     }
-    match util::catch(|| index.update()) {
+    match util::catch(|| util::watched(|| index.update())) {
       Ok(Ok(())) => {}
       Ok(Err(err)) => {
         e.fail("C16", "update/error", format!("Index::update returned an error on a valid chain: {err:#}"));
@@ -935,6 +936,17 @@ pub fn run(ctx: &Ctx, property: &'static str) -> Report {
     totals.capped |= tb.capped;
     totals.states.extend(tb.states);
   }
+  if property == "C17" {
+    // the address index alone next to an inscription index that starts above the setup prefix (the knob
+    // moves the first inscription height): every output below that height must still be listed
+    let cfg3 = IndexCfg { sats: false, first_inscription_height: Some(PREFIX_COINBASES + 2), ..cfg.clone() };
+    let spec3 = RunSpec { property, cfg_label: cfg3.label(), suite: "sats-addresses-late-inscriptions", budget_secs: budget, alts: layout.alts(), k, k_min: 0 };
+    let t3: Totals = run_histories(&spec3, &mut report, |id| Worker::new(id + 300, l), |w, c| exec(w, &cfg3, l, c));
+    fold_totals(&mut report, "sats_addresses_late_inscriptions", &t3, k);
+    totals.executions += t3.executions;
+    totals.capped |= t3.capped;
+    totals.states.extend(t3.states);
+  }
   if property != "C17" {
     // the sat index without the inscription index (its lost-sat bookkeeping is separate there)
     let cfg2 = IndexCfg { inscriptions: false, addresses: false, ..cfg.clone() };
@@ -945,7 +957,7 @@ pub fn run(ctx: &Ctx, property: &'static str) -> Report {
     totals.capped |= t2.capped;
     totals.states.extend(t2.states);
   }
-  let cfgs: Vec<IndexCfg> = if property == "C17" { vec![cfg.clone()] } else { vec![cfg.clone(), IndexCfg { inscriptions: false, addresses: false, ..cfg.clone() }] };
+  let cfgs: Vec<IndexCfg> = if property == "C17" { vec![cfg.clone(), IndexCfg { sats: false, first_inscription_height: Some(PREFIX_COINBASES + 2), ..cfg.clone() }] } else { vec![cfg.clone(), IndexCfg { inscriptions: false, addresses: false, ..cfg.clone() }] };
   let (dn, dstates) = run_dense(property, &cfgs, &mut report);
   totals.executions += dn;
   totals.states.extend(dstates);
